@@ -27,6 +27,11 @@ import (
 type InspCase struct {
 	Scope string `json:"scope"`      // the schema the connection is bound to
 	OpcNS string `json:"opclass_ns"` // where the operator class lives
+	// FK: "" = no foreign key; "own" = docs.parent_id references docs.id of the connected schema (a self
+	// reference); "other_same_name" = it references table docs of schema shared; "other" = table parents
+	// of schema shared. A key into another schema makes the table a two-schema matter: a plan scoped to
+	// the connected schema has to be refused.
+	FK string `json:"fk,omitempty"`
 }
 
 func evalInspected(c InspCase) (problems []string) {
@@ -60,10 +65,20 @@ func evalInspected(c InspCase) (problems []string) {
 	cols := sqlmock.NewRows([]string{"table_name", "column_name", "data_type", "formatted", "is_nullable", "column_default", "character_maximum_length", "numeric_precision", "datetime_precision", "numeric_scale", "interval_type", "character_set_name", "collation_name", "is_identity", "identity_start", "identity_increment", "identity_last", "identity_generation", "generation_expression", "comment", "typtype", "typelem", "oid", "attnum"})
 	cols.AddRow("docs", "id", "bigint", "int8", "NO", nil, nil, 64, nil, 0, nil, nil, nil, "NO", nil, nil, nil, nil, nil, nil, "b", nil, 20, nil)
 	cols.AddRow("docs", "body", "text", "text", "NO", nil, nil, nil, nil, nil, nil, nil, nil, "NO", nil, nil, nil, nil, nil, nil, "b", nil, 25, nil)
+	cols.AddRow("docs", "parent_id", "bigint", "int8", "YES", nil, nil, 64, nil, 0, nil, nil, nil, "NO", nil, nil, nil, nil, nil, nil, "b", nil, 20, nil)
 	mk.ExpectQuery("").WillReturnRows(cols)
 	mk.ExpectQuery("").WillReturnRows(sqlmock.NewRows([]string{"table_name", "index_name", "index_type", "column_name", "included", "primary", "unique", "opexpr", "constraints", "predicate", "expression", "desc", "nulls_first", "nulls_last", "comment", "options", "opclass_name", "opclass_schema", "opclass_default", "opclass_params", "indnullsnotdistinct"}).
 		AddRow("docs", "docs_body_trgm", "gin", "body", false, false, false, nil, nil, nil, "body", false, false, false, nil, nil, "gin_trgm_ops", c.OpcNS, false, nil, false))
-	mk.ExpectQuery("").WillReturnRows(sqlmock.NewRows([]string{"constraint_name", "table_name", "column_name", "referenced_table_name", "referenced_column_name", "referenced_table_schema", "update_rule", "delete_rule"}))
+	fks := sqlmock.NewRows([]string{"constraint_name", "table_name", "column_name", "schema_name", "referenced_table_name", "referenced_column_name", "referenced_schema_name", "confupdtype", "confdeltype"})
+	switch c.FK {
+	case "own":
+		fks.AddRow("docs_parent", "docs", "parent_id", c.Scope, "docs", "id", c.Scope, "a", "a")
+	case "other_same_name":
+		fks.AddRow("docs_parent", "docs", "parent_id", c.Scope, "docs", "id", "shared", "a", "a")
+	case "other":
+		fks.AddRow("docs_parent", "docs", "parent_id", c.Scope, "parents", "id", "shared", "a", "a")
+	}
+	mk.ExpectQuery("").WillReturnRows(fks)
 	mk.ExpectQuery("").WillReturnRows(sqlmock.NewRows([]string{"table_name", "constraint_name", "expression", "column_name", "column_indexes"}))
 	s, err := d.InspectSchema(context.Background(), c.Scope, &schema.InspectOptions{Mode: schema.InspectSchemas | schema.InspectTables | schema.InspectTypes})
 	if err != nil {
@@ -80,6 +95,16 @@ func evalInspected(c InspCase) (problems []string) {
 			return []string{"diff: " + err.Error()}
 		}
 		plan, err := d.PlanChanges(context.Background(), "p", changes, func(o *migrate.PlanOptions) { o.SchemaQualifier = new(string) })
+		if strings.HasPrefix(c.FK, "other") {
+			if err == nil {
+				var all []string
+				for _, ch := range plan.Changes {
+					all = append(all, ch.Cmd)
+				}
+				bad("table docs has a foreign key into schema shared, yet a plan scoped to schema %q is made: %q", c.Scope, all)
+			}
+			continue
+		}
 		if err != nil {
 			return []string{"plan: " + err.Error()}
 		}
@@ -104,7 +129,7 @@ func evalInspected(c InspCase) (problems []string) {
 			}
 		}
 	}
-	if !created {
+	if !created && !strings.HasPrefix(c.FK, "other") {
 		bad("no CREATE INDEX statement in %q", stmts)
 	}
 	return
@@ -114,7 +139,12 @@ func inspCases() []InspCase {
 	var cs []InspCase
 	for _, scope := range []string{"tenant_q", "public"} {
 		for _, ns := range []string{scope, "public", "pg_catalog", "ext_schema"} {
-			cs = append(cs, InspCase{scope, ns})
+			cs = append(cs, InspCase{Scope: scope, OpcNS: ns})
+		}
+	}
+	for _, scope := range []string{"tenant_q", "public"} {
+		for _, fk := range []string{"own", "other_same_name", "other"} {
+			cs = append(cs, InspCase{Scope: scope, OpcNS: "public", FK: fk})
 		}
 	}
 	return cs
